@@ -81,6 +81,7 @@ type Setup struct {
 	Svc           bool
 	FinalEcho     bool
 	Wrapper       bool         // a HandlerWrapper (identity) is installed before the routes are registered
+	WrapperRec    bool         // ... and it is not the identity: every call through a wrapped handler leaves a note in the request's record
 	NestedRoute   bool         // a plain route /__nested (GET and POST) that writes; handlers may dispatch sub-requests to it
 	LateMw        int          // this many of the trailing application middleware are added with Use() only after the routes exist
 	ViaHandlers   bool         // the middleware stack is installed with Handlers() (replacing a throw-away stack) instead of Use()
@@ -155,6 +156,7 @@ type Profile struct {
 	SvcPm         int
 	EnvLatePm     int
 	WrapperPm     int
+	WrapperRecPm  int  // of the set-ups with a HandlerWrapper: share whose wrapper records its calls
 	HotStatic     bool // the hot path may be one of the Static tree's paths
 	Nested        bool // register /__nested and give every request a sub-request record
 	RegVariantsPm int  // less common registration sequences (Handlers(), NotFound() twice, Use() after routes, per-route AutoHead, empty group paths, ROUTES with string methods)
@@ -231,6 +233,9 @@ func GenSetup(g *tape.Stream, p *Profile) *Setup {
 	s.EnvLate = g.Chance(p.EnvLatePm)
 	s.BogusEnv = g.Chance(p.EnvLatePm)
 	s.Wrapper = g.Chance(p.WrapperPm)
+	if s.Wrapper && p.WrapperRecPm > 0 {
+		s.WrapperRec = g.Chance(p.WrapperRecPm)
+	}
 	s.NestedRoute = p.Nested
 	s.ViaHandlers = g.Chance(p.RegVariantsPm)
 	s.NotFoundTwice = g.Chance(p.RegVariantsPm)
